@@ -167,15 +167,18 @@ def check(run: Run) -> None:
 
     # ---- R4
     fg = model.func(F_GLOBAL)
+    n_r4 = 0
     for n in walk_no_nested(fg.node):
         if isinstance(n, ast.If) and isinstance(n.test, ast.Compare) and isinstance(n.test.left, ast.Call) and ast.unparse(n.test.left.func) == "len" and isinstance(n.test.ops[0], ast.Gt):
             var = base_name(n.test.left.args[0])
             srcs = [a.value for a in walk_no_nested(fg.node) if isinstance(a, ast.Assign) and any(isinstance(t, ast.Name) and t.id == var for t in a.targets)]
-            if not srcs or "page" not in (var or ""):
-                continue
-            distinct = all(any(isinstance(x, (ast.SetComp, ast.Set)) or (isinstance(x, ast.Call) and ast.unparse(x.func) in ("set", "dict.fromkeys", "frozenset")) for x in ast.walk(s)) for s in srcs)
+            if not any(isinstance(x, ast.Return) for x in ast.walk(n)):
+                continue  # not the refusal branch
+            n_r4 += 1
+            distinct = bool(srcs) and all(any(isinstance(x, (ast.SetComp, ast.Set)) or (isinstance(x, ast.Call) and ast.unparse(x.func) in ("set", "dict.fromkeys", "frozenset")) for x in ast.walk(s)) for s in srcs)
             run.check("C17.R4", "the 'multiple pages' test counts distinct pages", distinct, "_open_global_link", n.test,
                       f"`{var}` is not de-duplicated before `len({var}) > 1`: an ID owned by several notes of ONE page is reported as 'multiple pages' instead of being opened",
                       file=FILE, node=n)
+    run.floor("'several pages' refusals in _open_global_link", n_r4, 1)
     run.units = dict(slice_size=len(slice_), functions=[F_OPEN, F_DISPATCH, F_LOCAL, F_GLOBAL])
     run.assumptions += ["output of child processes (open, papis) is not zorg's stdout discipline", "logging goes to stderr (logrus default)"]
